@@ -529,6 +529,15 @@ def _ptrace(ctx, fi):
                     return None
                 out += r
             return out
+        # tuple(p.getFixList(k, n)) / list(..): n fields of k bytes, as a sequence
+        if isinstance(e, ast.Call) and isinstance(e.func, ast.Name) and e.func.id in ("tuple", "list") \
+                and len(e.args) == 1 and not e.keywords:
+            inner = e.args[0]
+            if isinstance(inner, ast.Call) and isinstance(inner.func, ast.Attribute) and isinstance(inner.func.value, ast.Name) \
+                    and inner.func.value.id == P and inner.func.attr == "getFixList" and len(inner.args) == 2:
+                k_, n_ = _const(inner.args[0]), _const(inner.args[1])
+                if isinstance(k_, int) and isinstance(n_, int) and 0 < n_ <= 8:
+                    return [("fix", k_)] * n_
         return None
 
     def touches(node):
